@@ -103,11 +103,11 @@ theorem mutual_recursive_macro_rejected (s : Summary) (a b : Name) (hr : Reaches
   · obtain ⟨r, hr', it, hit, hinv⟩ := h
     exact ⟨r, hr', it, hit, a, Or.inl rfl, hinv⟩
 
-/-- expansion inside the budget: a finite call tree of depth ≤ 100 expands (the only possible failure is the
-`flatten_punctuated` panic of finding FM7) -/
+/-- expansion inside the budget: a finite call tree of depth ≤ 100 expands (full strength since fix 71f89c5;
+before it the `flatten_punctuated` panic of finding FM7 was a possible outcome) -/
 theorem expandItem_succeeds_within_budget (ms : List MacroDef) (n : Nat) (it : Item) (h : Fits ms n it)
     (hn : n ≤ depthBudget) (σ : Env) (π : List Nat) :
-    (∃ its, expandItem ms depthBudget σ π it = .ok its) ∨ expandItem ms depthBudget σ π it = .error .panicFlatten :=
+    ∃ its, expandItem ms depthBudget σ π it = .ok its :=
   expandItem_fits ms n it h depthBudget σ π hn
 
 /-! ## well-formed programs are accepted -/
@@ -147,7 +147,7 @@ theorem sig_panic_only_in_class (s : Summary) (h : check s = .error .panicSigNam
 theorem leftover_panics_unreachable (s : Summary) : check s ≠ .error .panicLeftover := check_no_leftover s
 
 theorem panic_only_in_known_classes (s : Summary) (e : Err) (h : check s = .error e) (hp : e.isPanic = true) :
-    e = .panicAggBound ∨ e = .panicSigName ∨ e = .panicSigGenerics ∨ e = .panicFlatten :=
+    e = .panicAggBound ∨ e = .panicSigName ∨ e = .panicSigGenerics :=
   check_panic_sites s e h hp
 
 /-! ## non-vacuity and findings (closed witnesses) -/
@@ -228,8 +228,10 @@ theorem wParOnly_par_accepted : check { wParOnly with kind := .ascentPar } = .ok
 
 /-! ### findings: the full-strength statements are false for the model (= for the real code) -/
 
-/-- FM1. `b(x) <-- a(x), let (x) = 3;` — the pattern binds `x` under parentheses, `pattern_get_vars` reports
-nothing: the program is ill-formed in the full sense and ACCEPTED -/
+/-- FM1 (fixed by f47e99d for its only known source, parenthesised patterns: `pattern_get_vars` now descends
+into `Pat::Paren`, and the tie's generator reports such variables as `seen`).  What remains is a statement about
+the model only: a variable that a pattern binds WITHOUT `pattern_get_vars` reporting it (`hidden`: e.g. bound by
+a macro in pattern position, which no syntactic analysis can see) is not recognised as a rebind -/
 def wHidden : Summary := prog [rel "a" 1, rel "b" 1, rule [.clause "b" 1] [.clause "a" [.var x] [], .binder ⟨[], [x]⟩]]
 theorem hidden_rebind_accepted :
     check wHidden = .ok () ∧ IllFormedRebindFull [⟨[⟨"b", 1⟩], [.clause "a" [.var x] [], .binder ⟨[], [x]⟩]⟩] := by
@@ -256,14 +258,15 @@ theorem aggBoundMissing_panics : check wAggBoundMissing = .error .panicAggBound 
 /-- FM6. `struct Foo; impl Bar;` -/
 theorem sigMismatch_panics : check { wGood with sig := some ⟨"Foo", some "Bar", true⟩ } = .error .panicSigName := by decide
 
-/-- FM7. `macro e() { }  e!(), b(x) <-- a(x);` -/
+/-- FM7 (fixed by 71f89c5). `macro e() { }  e!(), b(x) <-- a(x);` is accepted: the empty expansion contributes nothing -/
 def wEmptyHeadMacro : Summary := prog [rel "a" 1, rel "b" 1,
   .mac 0 { name := "e", params := [], trailing := false, isHead := true, body := [], hbody := [] },
   rule [.mac "e" [], .clause "b" 1] [.clause "a" [.var x] []]]
-theorem emptyMacro_panics : check wEmptyHeadMacro = .error .panicFlatten := by decide
+theorem emptyMacro_accepted : check wEmptyHeadMacro = .ok () := by decide
 
-/-- FM9. `lattice a(i32, i32,);` (well-formed) is rejected -/
-theorem latticeTrailingComma_rejected : check (prog [.rel ⟨"a", 2, true, true, []⟩]) = .error .emptyLattice := by decide
+/-- FM9 (fixed by 9d3a18a). `lattice a(i32, i32,);` (well-formed) is accepted; `lattice a();` is still rejected -/
+theorem latticeTrailingComma_accepted : check (prog [.rel ⟨"a", 2, true, true, []⟩]) = .ok () := by decide
+theorem emptyLattice_rejected : check (prog [.rel ⟨"a", 0, true, false, []⟩]) = .error .emptyLattice := by decide
 
 /-- FM10. the budget counts disjunction nesting: an item below 100 levels of parentheses is reported as a
 recursive macro although the program has no macro -/
